@@ -62,7 +62,7 @@ func Load(repo string, overlay map[string]string, pkgs []string, extraExec []str
 		seen[p] = true
 	}
 	packages.Visit(depPkgs, nil, func(p *packages.Package) {
-		if strings.HasPrefix(p.PkgPath, ModPath+"/") {
+		if strings.HasPrefix(p.PkgPath, ModPath+"/") && !strings.HasSuffix(p.PkgPath, "/zzverif") {
 			rel := "./" + strings.TrimPrefix(p.PkgPath, ModPath+"/")
 			if !seen[rel] {
 				seen[rel] = true
